@@ -129,6 +129,11 @@ func handleScan(db *NoKV.DB, req *pb.ScanRequest) (*pb.ScanResponse, error) {
 	resp := &pb.ScanResponse{}
 	iter.Rewind()
 	reader := percolator.NewReader(db)
+	type pendingLock struct {
+		key  []byte
+		lock *percolator.Lock
+	}
+	var pending []pendingLock
 	for iter.Valid() && len(resp.Kvs) < limit {
 		item := iter.Item()
 		if item == nil {
@@ -137,6 +142,25 @@ func handleScan(db *NoKV.DB, req *pb.ScanRequest) (*pb.ScanResponse, error) {
 		}
 		entry := item.Entry()
 		if entry == nil {
+			iter.Next()
+			continue
+		}
+		if entry.CF == kv.CFLock {
+			// The lock column precedes the write column: remember the locked keys
+			// of the range so that a key which is locked but has no write record
+			// yet (first write of the key) still blocks the scan.
+			key := kv.SafeCopy(nil, entry.Key)
+			cmp := bytes.Compare(key, startKey)
+			seen := len(pending) > 0 && bytes.Equal(pending[len(pending)-1].key, key)
+			if !seen && (len(startKey) == 0 || cmp > 0 || (cmp == 0 && includeStart)) {
+				lock, err := reader.GetLock(key)
+				if err != nil {
+					return nil, err
+				}
+				if lock != nil && readTs >= lock.Ts {
+					pending = append(pending, pendingLock{key: key, lock: lock})
+				}
+			}
 			iter.Next()
 			continue
 		}
@@ -152,6 +176,14 @@ func handleScan(db *NoKV.DB, req *pb.ScanRequest) (*pb.ScanResponse, error) {
 				continue
 			}
 			started = true
+		}
+		if len(pending) > 0 && bytes.Compare(pending[0].key, key) < 0 {
+			// a locked key without write records sorts before this key
+			resp.Error = lockedError(pending[0].key, pending[0].lock)
+			return resp, nil
+		}
+		if len(pending) > 0 && bytes.Equal(pending[0].key, key) {
+			pending = pending[1:]
 		}
 		lock, err := reader.GetLock(key)
 		if err != nil {
@@ -173,6 +205,10 @@ func handleScan(db *NoKV.DB, req *pb.ScanRequest) (*pb.ScanResponse, error) {
 				Version: readTs,
 			})
 		}
+	}
+	if resp.Error == nil && len(resp.Kvs) < limit && len(pending) > 0 {
+		// locked keys without write records after the last visited key
+		resp.Error = lockedError(pending[0].key, pending[0].lock)
 	}
 	return resp, nil
 }
